@@ -165,6 +165,71 @@ Proof.
   intros H Ht. destruct (parse_fmt_sound s F H) as [Hok <-]. apply text_nontie; assumption.
 Qed.
 
+(* ... and complete: it accepts exactly the texts of the grammar *)
+Lemma split_pct_repeat k : split_pct (repeat 37 k) = ([], k).
+Proof. induction k as [|k IH]; [reflexivity|]. cbn [repeat split_pct]. rewrite IH. reflexivity. Qed.
+
+Lemma split_pct_app : forall body k, last body 0 <> 37 ->
+  split_pct (body ++ repeat 37 k) = (body, k).
+Proof.
+  induction body as [|c b IH]; intros k H; [apply split_pct_repeat|].
+  cbn [app split_pct]. rewrite IH.
+  - destruct b as [|d b]; [|rewrite andb_false_r; reflexivity].
+    cbn [last] in H. destruct (Z.eqb_spec c 37); [contradiction|reflexivity].
+  - destruct b as [|d b]; [cbn; lia|exact H].
+Qed.
+
+Definition bchar (c : Z) : bool := ph c || (c =? 44) || (c =? 46).
+Lemma bchar_last : forall body, forallb bchar body = true -> last body 0 <> 37.
+Proof.
+  induction body as [|c b IH]; intros H; [cbn; lia|].
+  cbn [forallb] in H. apply andb_true_iff in H. destruct H as [Hc Hb].
+  destruct b as [|d b]; [|exact (IH Hb)].
+  cbn [last]. intros ->. discriminate.
+Qed.
+
+Lemma int_ok_bchars : forall s b, int_ok b s = true ->
+  forallb bchar s = true /\ forallb (fun c => negb (c =? 46)) s = true.
+Proof.
+  induction s as [|c s IH]; intros b H; [split; reflexivity|].
+  cbn [int_ok forallb] in *. unfold bchar at 1. destruct (ph c) eqn:Ec.
+  - destruct (IH _ H) as [A B]. rewrite A, B. cbn [orb andb]. split; [reflexivity|].
+    unfold ph in Ec. apply orb_true_iff in Ec.
+    destruct Ec as [E|E]; apply Z.eqb_eq in E; subst; reflexivity.
+  - apply andb_true_iff in H. destruct H as [H H2]. apply andb_true_iff in H. destruct H as [H _].
+    destruct (IH _ H2) as [A B]. rewrite A, B, H. apply Z.eqb_eq in H. subst c. split; reflexivity.
+Qed.
+
+Lemma split_at_dot_app : forall a b, forallb (fun c => negb (c =? 46)) a = true ->
+  split_at_dot (a ++ 46 :: b) = (a, Some b) /\ split_at_dot a = (a, None).
+Proof.
+  induction a as [|c a IH]; intros b H; [split; reflexivity|].
+  cbn [forallb] in H. apply andb_true_iff in H. destruct H as [Hc Ha].
+  destruct (IH b Ha) as [A B]. cbn [app split_at_dot].
+  destruct (c =? 46); [discriminate|]. rewrite A, B. split; reflexivity.
+Qed.
+
+Lemma parse_fmt_complete F : fmt_ok F = true -> parse_fmt (fmt_string F) = Some F.
+Proof.
+  intros Hok. pose proof Hok as Hok'.
+  destruct F as [ip dot fp k]. unfold fmt_ok, fmt_string in *. cbn [f_int f_dot f_frac f_pct] in *.
+  apply andb_true_iff in Hok. destruct Hok as [Hok H4].
+  apply andb_true_iff in Hok. destruct Hok as [Hok H3].
+  apply andb_true_iff in Hok. destruct Hok as [H1 H2].
+  destruct (int_ok_bchars ip false H1) as [B1 B2].
+  unfold parse_fmt. rewrite app_assoc. rewrite split_pct_app.
+  - destruct dot.
+    + rewrite (proj1 (split_at_dot_app ip fp B2)). cbn [f_int f_dot f_frac f_pct]. unfold fmt_ok.
+      cbn [f_int f_dot f_frac f_pct]. rewrite H1, H2. reflexivity.
+    + cbn [orb] in H3. destruct fp; [|discriminate]. rewrite app_nil_r.
+      rewrite (proj2 (split_at_dot_app ip [] B2)). unfold fmt_ok.
+      cbn [f_int f_dot f_frac f_pct orb] in *. rewrite H1, H4. reflexivity.
+  - apply bchar_last. rewrite forallb_app, B1. cbn [andb]. destruct dot; [|reflexivity].
+    cbn [forallb]. change (bchar 46) with true. cbn [andb].
+    apply forallb_forall. intros c Hc. unfold bchar.
+    rewrite (proj1 (forallb_forall ph fp) H2 c Hc). reflexivity.
+Qed.
+
 (* ------------------------------------------------------------ instances *)
 (* "#,##0.0#%" *)
 Definition F_ex : tfmt :=
@@ -271,4 +336,12 @@ Lemma text_grouping_all : forall s,
 Proof.
   intros s. split; [exact (group3_short s)|].
   split; [intros a b c; exact (group3_step s a b c)|exact (group3_digits s)].
+Qed.
+
+Lemma text_grammar_decidable_all : forall s F,
+  parse_fmt s = Some F <-> (fmt_ok F = true /\ s = fmt_string F).
+Proof.
+  intros s F. split.
+  - intros H. destruct (parse_fmt_sound s F H) as [A B]. split; [exact A|symmetry; exact B].
+  - intros [A ->]. apply parse_fmt_complete. exact A.
 Qed.
